@@ -265,9 +265,14 @@ def apiCallJ (jobs : Bool) (fuel : Nat) (c : Cfg) (prog : List Stmt) (st : St) :
 def apiCall := apiCallJ true
 
 /-- Harness kinds of `N kind reps (body)` → (gen, swallowInterrupt, swallowThrow). Kind 3 is a generator
-    body; 6 and 7 are Go functions that ignore the error of the nested call. -/
+    body; 6 and 7 are Go functions that ignore the error of the nested call; 13–18 are Go host functions that pass the
+    nested call's error on WRAPPED (fmt.Errorf %w, errors.Join, both nested, or returned from a reflected func): a
+    wrapper is still uncatchable (isUncatchableException uses errors.As) and errors.As still reaches the value, so
+    for the model they are plain propagating frames. -/
+def nKinds : Nat := 19
+
 def kindAttrs (kind : Nat) : Bool × Bool × Bool :=
-  match kind % 13 with
+  match kind % nKinds with
   | 3 => (true, false, false)
   | 6 => (false, true, true)
   | 7 => (false, true, true)
